@@ -103,6 +103,56 @@ def gen_facts():
         open(dst, "w").write(out)
 
 
+def vm_cross_check(buf_file, limit=400):
+    """Evaluates recorded buffer cases inside Coq (vm_compute on Model/BufferPtr.v, no extraction involved).
+    Returns (ok, n_cases, message)."""
+    cases = []
+    cur = None
+    for line in open(buf_file):
+        w = line.split()
+        if not w:
+            continue
+        if w[0] == "seq":
+            cur = (int(w[1]), w[2:])
+        elif w[0] == "res" and cur:
+            cases.append((cur[0], cur[1], w[1:]))
+            cur = None
+    if not cases:
+        return True, 0, "no cases"
+    # the longest ones and an even sample of the rest
+    step = max(1, len(cases) // limit)
+    sample = cases[::step][:limit] + sorted(cases, key=lambda x: -len(x[1]))[:50]
+
+    def cmd(c, k):
+        return {"T": "BTop", "S": "BSkip", "R": "BRemove", "X": "BShutdown"}.get(c) or \
+            ("BEnqueue %d %s" % (k, "true" if c == "Ee" else "false"))
+
+    def res(r):
+        v, sz = r.split(":")
+        m = {"nil": "RBufOp None", "ok": "RBufOk", "full": "RBufFull", "shut": "RBufShut", "wb": "RBufWouldBlock", "panic": "RBufPanic"}
+        t = m.get(v) or ("RBufOp (Some %d)" % int(v[2:]))
+        return "(%s, %s)" % (t, sz)
+
+    lines = []
+    for cap, cmds, rs in sample:
+        k = 0
+        cs = []
+        for c in cmds:
+            if c.startswith("E"):
+                k += 1
+            cs.append(cmd(c, k))
+        lines.append("(%d, [%s], [%s])" % (cap, "; ".join(cs), "; ".join(res(r) for r in rs)))
+    src = ("From Coq Require Import List Bool Arith.\nFrom GB Require Import Model.BufferPtr.\nImport ListNotations.\n"
+           "Definition cases : list (nat * list bcmd * list (pres * nat)) := [\n" + ";\n".join(lines) + "\n]%nat.\n"
+           "Definition all_ok := Eval vm_compute in forallb case_ok cases.\nPrint all_ok.\n")
+    os.makedirs(os.path.join(WORK, "vm"), exist_ok=True)
+    path = os.path.join(WORK, "vm", "BufferCases.v")
+    open(path, "w").write(src)
+    rc, out = sh("coqc -Q %s GB %s" % (COQ, path), cwd=os.path.join(WORK, "vm"), timeout=600)
+    ok = rc == 0 and re.search(r"all_ok\s*=\s*true", out) is not None
+    return ok, len(sample), out[-400:]
+
+
 def print_assumptions(prop_file):
     """Re-runs coqc on a Props file and returns its Print Assumptions output."""
     rc, out = sh("coqc -Q . GB %s" % prop_file, cwd=COQ, timeout=600)
